@@ -1300,6 +1300,8 @@ func (vc *VC) doAlloc(st *State, x *ssa.Alloc) {
 		return
 	}
 	st.cells[x] = vc.zeroOf(ty)
+	vc.allocCount++
+	vc.allocSeq[x] = vc.allocCount
 	vc.addrs[x] = &Addr{Kind: "cell", Cell: x, Typ: ty, Sort: vc.sortOf(ty)}
 	vc.vals[x] = "0"
 }
